@@ -299,9 +299,15 @@ class MultiStream(Stream):
         if phase_flows:
             for phase, data in phase_flows.items():
                 keys, values = zip(*data)
-                self.set_flow(values, units, (phase, keys))
+                if units is None:
+                    self.imol[phase, keys] = values
+                else:
+                    self.set_flow(values, units, (phase, keys))
         if total_flow:
-            self.set_total_flow(total_flow, units)
+            if units is None:
+                self.F_mol = total_flow
+            else:
+                self.set_total_flow(total_flow, units)
         
     def _init_indexer(self, flow, phases, chemicals, phase_flows):
         if flow == ():
